@@ -24,9 +24,12 @@ FEATURES = {'default': [], 'safe': ['safe'], 'nightly': ['nightly'], 'zeroize': 
 PH_RE = re.compile(r'^(::core::marker::)?PhantomData<.*>$')
 
 
+LEAFLIKE = ('NoCmp', 'NoHash', 'NoDbg', 'NoZ', 'NoEq')
+
+
 def field_kind(ty, tparams):
     ty = ty.strip()
-    if ty in tparams or ty == 'Leaf':
+    if ty in tparams or ty == 'Leaf' or ty in LEAFLIKE:
         return 'leaf'
     if ty == 'u8':
         return 'u8'
@@ -109,11 +112,21 @@ def compatible(item, strict=True):
     trl = derived_traits(item)
     if len(trl) != len(set(trl)):
         return False          # same trait in two attributes: E0119 is the user's
+    if 'Copy' in trl and 'ZeroizeOnDrop' in trl:
+        return False          # E0184 (Copy type with a destructor) is the user's
     for a in item.attrs:
         if a.kind == 'repr' and a.repr_[0] == 'idents':
             ids = [i.rust() for i in a.repr_[1]]
             if 'C' in ids and len(ids) > 1 and all(v.shape == 'unit' for v in item.variants):
                 return False  # E0566 on unit-only enums
+    return True
+
+
+def compatible_cfg(item, cfg):
+    """Well-posedness that depends on the feature configuration."""
+    tr = derived_traits(item)
+    if cfg == 'zeroize' and 'ZeroizeOnDrop' in tr and 'Zeroize' not in tr:
+        return False          # without `zeroize-on-drop` the Drop impl calls Zeroize::zeroize(self): needs the user's Zeroize impl
     return True
 
 
@@ -154,16 +167,17 @@ def val_expr(item, k, vals, targs):
     v = item.variants[k]
     ks = kinds_of(item)[k]
 
-    def fe(kind, x):
-        return {'leaf': 'Leaf(%d)' % x, 'u8': '%du8' % x, 'ph': '::core::marker::PhantomData', 'inh': 'Inh(%d)' % x}[kind]
+    def fe(kind, x, ty):
+        ctor = ty.strip() if ty.strip() in LEAFLIKE else 'Leaf'
+        return {'leaf': '%s(%d)' % (ctor, x), 'u8': '%du8' % x, 'ph': '::core::marker::PhantomData', 'inh': 'Inh(%d)' % x}[kind]
     path = item.ident.rust() + ('::' + targs if targs else '')
     if item.kind == 'enum':
         path += '::' + v.ident.rust()
     if v.shape == 'unit':
         return path
     if v.shape == 'tuple':
-        return '%s(%s)' % (path, ', '.join(fe(kd, x) for kd, x in zip(ks, vals)))
-    return '%s { %s }' % (path, ', '.join('%s: %s' % (f.member.rust(), fe(kd, x)) for f, kd, x in zip(v.fields, ks, vals)))
+        return '%s(%s)' % (path, ', '.join(fe(kd, x, f.ty) for f, kd, x in zip(v.fields, ks, vals)))
+    return '%s { %s }' % (path, ', '.join('%s: %s' % (f.member.rust(), fe(kd, x, f.ty)) for f, kd, x in zip(v.fields, ks, vals)))
 
 
 def view_fn(item, targs):
@@ -308,7 +322,7 @@ version = "0.0.0"
 edition = "2021"
 
 [dependencies]
-derive-where = { path = "/repo", features = [%s] }
+derive-where = { path = "%s", features = [%s] }
 %s
 
 [features]
@@ -319,13 +333,13 @@ z = []
 
 
 def write_crate(cfg, mods, active):
-    d = os.path.join(VERIF, 'work', 'exec-' + cfg)
+    d = os.path.join(runner.WORK, 'exec-' + cfg)
     os.makedirs(os.path.join(d, 'src'), exist_ok=True)
     feats = ', '.join('"%s"' % f for f in FEATURES[cfg])
     z = cfg in ('zeroize', 'zod', 'safe-zod')
     with open(os.path.join(d, 'Cargo.toml'), 'w') as f:
-        f.write(CARGO % (feats, 'zeroize = "1"' if z else ''))
-    shutil.copy('/repo/Cargo.lock', os.path.join(d, 'Cargo.lock'))
+        f.write(CARGO % (runner.REPO, feats, 'zeroize = "1"' if z else ''))
+    shutil.copy(runner.REPO + '/Cargo.lock', os.path.join(d, 'Cargo.lock'))
     shutil.copy(os.path.join(EXEC, 'prelude.rs'), os.path.join(d, 'src', 'prelude.rs'))
     src = ['#![allow(warnings)]', 'mod prelude;', '#[cfg(feature = "z")] extern crate zeroize as zeroize_;']
     offsets = {}
@@ -347,7 +361,7 @@ def write_crate(cfg, mods, active):
 
 def cargo(cfg, d, cmd):
     env = dict(os.environ)
-    env.update(CARGO_TARGET_DIR=os.path.join(VERIF, 'target', 'exec-' + cfg), CARGO_NET_OFFLINE='true')
+    env.update(CARGO_TARGET_DIR=os.path.join(runner.TARGET, 'exec-' + cfg), CARGO_NET_OFFLINE='true')
     args = ['cargo'] + (['+nightly'] if cfg == 'nightly' else []) + cmd + ['--offline'] + \
         (['--features', 'z'] if cfg in ('zeroize', 'zod', 'safe-zod') else [])
     return subprocess.run(args, cwd=d, env=env, stdout=subprocess.PIPE, stderr=subprocess.PIPE, text=True)
@@ -585,7 +599,7 @@ def run_b(cfg, named_items, hostile=False):
     """named_items: [(name, Item)] all `compatible`. Returns a report dict."""
     mods, qss = [], []
     for idx, (name, it) in enumerate(named_items):
-        qs = queries_for(it, cfg)
+        qs = [] if getattr(it, 'expect_error', None) else queries_for(it, cfg)
         qss.append(qs)
         mods.append(rust_probe(idx, it, cfg, qs, hostile))
     errors, out, runerr, crashes = build_run(cfg, mods)
@@ -605,6 +619,16 @@ def run_b(cfg, named_items, hostile=False):
                                            operands=[enc(x) for x in q[1:] if x is not None],
                                            expected=['the operation returns (no abort, no panic)'],
                                            observed=['process died: ' + msg.replace('\n', ' ')[-300:]], spec='terminates'))
+            continue
+        want = getattr(it, 'expect_error', None)
+        if want:
+            # negative probe: the expansion must NOT type-check (e.g. Eq with a non-Eq field that is not skipped)
+            report['negative'] = report.get('negative', 0) + 1
+            if idx in errors and any(e.split(' ')[0] in want for e in errors[idx]):
+                continue
+            report['failures'].append(dict(name=name, source=it.rust(), config=cfg, operation='compile', operands=[],
+                                           expected=['rustc rejects the impl: %s' % '/'.join(want)],
+                                           observed=errors.get(idx, ['compiles'])[:3], spec='must not compile'))
             continue
         if idx in errors:
             if ans == 'rejected':
